@@ -21,6 +21,7 @@ type cacheFunctions[MetadataT any] struct {
 	getCacheSize  func() int64
 	getCacheLen   func() int
 	getLock       func(key CacheKey) *sync.RWMutex
+	getMetadata   func(key CacheKey) (*EntryMetadata[MetadataT], bool) // current metadata of a key, without locking the key
 }
 
 type cacheJanitor[MetadataT any] struct {
@@ -124,6 +125,14 @@ func (j *cacheJanitor[MetadataT]) cleanExpiredEntries() {
 		locked := lock.TryLock()
 		if !locked {
 			slog.Info("Failed to acquire lock for key", "key", key.Hex)
+			continue
+		}
+
+		// The scan above ran without the key lock: the entry may have been replaced by a fresh one (or
+		// removed) since then. Only remove what is still there and still expired.
+		if meta, ok := j.cacheFns.getMetadata(key); !ok || !meta.Expires.Before(time.Now()) {
+			lock.Unlock()
+			slog.Info("Cache entry is no longer expired, keeping it", "key", key.Hex)
 			continue
 		}
 
